@@ -141,6 +141,10 @@ class C08(Prop):
             i["a"] = dict(a, S=sa)
             i["b"] = dict(b, S=sb)
             i["sloc"] = ["S"]
+        if loc and isinstance(loc[-1], str) and rng.random() < 0.25:
+            # an exclusion pattern of two steps that names the record list without an index: it matches no reported path
+            # (those carry '[i]' or '[i]<>[j]' on the list step), so nothing is hidden - for aligned and displaced pairs alike
+            i["excl"] = [rng.choice(["%s/%s", "//%s/%s", "/%s/%s"]) % (loc[-1], rng.choice(["v", "w", "p", "id"]))]
         if perms is None:
             py = list(range(len(ys)))
             px = list(range(len(xs)))
@@ -221,6 +225,9 @@ class C08(Prop):
                 rep2, exc2 = self.impl.compare(A2, B2, i2)
                 runs[name] = rep2 if exc2 is None else {"raise": "%s: %s" % (type(exc2).__name__, str(exc2)[:120])}
             obs["perm"] = runs
+            # the same two objects compared once more: a comparison leaves nothing behind on its operands
+            rep3, exc3 = self.impl.compare(A, B, i)
+            obs["again"] = rep3 if exc3 is None else {"raise": "%s: %s" % (type(exc3).__name__, str(exc3)[:120])}
         return CC.observe(self.impl, i, extra)
 
     def coq_input(self, case):
@@ -231,6 +238,8 @@ class C08(Prop):
         i = case["input"]
         if "raise" in obs:
             return "the comparison raised %s" % obs.get("exc", obs["raise"])
+        if "again" in obs and obs["again"] != obs["rep"]:
+            return "the same two objects compared a second time give another report: %r, first %r" % (obs["again"], obs["rep"])
         loc, ck = i["loc"], i["ck"]
         prefix = CC.render_loc(loc)
         xs, ys = CC.resolve(i["a"], loc), CC.resolve(i["b"], loc)
